@@ -31,6 +31,29 @@ def ID_SZ : Nat := Gen.Post.IDLEN + 1           -- UserID_t / BoardID_t = [IDLEN
 def dirSz : Nat := Gen.RecFile.FILE_HEADER_RAW_SZ
 def logSz : Nat := Gen.RecFile.POSTLOG_SZ
 
+/-! ### site configuration
+
+The switches below are package VARIABLES of `ptttype` (set from the ini file by `ptttype/config.go`), not
+constants: every decision site reads them at run time.  The defaults are the initialisers in the source. -/
+structure Cfg where
+  haveAnonymous : Bool := Gen.Post.HAVE_ANONYMOUS
+  allowFreeTn : Bool := Gen.Post.ALLOW_FREE_TN_ANNOUNCE
+  usePostEntropy : Bool := Gen.Post.USE_POST_ENTROPY
+  queryURL : Bool := Gen.Post.QUERY_ARTICLE_URL
+  useAidURL : Bool := Gen.Post.USE_AID_URL
+  deriving Repr, DecidableEq
+
+/-- which configuration variables each modelled decision site consults (compared with what the translator
+reads out of the source: `Gen.Post.siteConfig`). -/
+def consults : List (String × List String) := [
+  ("checkBoardAnonymous", ["HAVE_ANONYMOUS"]),
+  ("writeHeaderAuthor", ["HAVE_ANONYMOUS"]),
+  ("isTnAllowed", ["ALLOW_FREE_TN_ANNOUNCE"]),
+  ("WriteFile", ["DEFAULT_FILE_CREATE_PERM", "USE_POST_ENTROPY"]),   -- the permission bits of the file are not modelled
+  ("GetWebURL", ["URL_PREFIX"]),                                    -- USE_AID_URL is a package variable without an ini key
+  ("addSimpleSignature", ["MYHOSTNAME"]),
+  ("DoPostArticle", ["MAX_POST_MONEY", "QUERY_ARTICLE_URL", "USE_COOLDOWN", "USE_HIDDEN_BOARD_NOCREDIT"])]
+
 /-! ### the title pipeline -/
 
 /-- `doPostArticleFullTitle`: `"[" ++ class ++ "] " ++ title` when a class is given. -/
@@ -54,23 +77,23 @@ def isTnAnnounceOld (title : Bytes) : M Bool := do
 
 /-- `isTnAllowed`. `role` = `isModeBoard(..) || HasUserPerm(SYSOP|ACCOUNTS|BOARD|BBSADM|VIEWSYSOP|POLICE_MAN)
 || HasUserPerm(SYSSUPERSUBOP|SYSSUBOP)` (permission bits: property C08). -/
-def isTnAllowedWith (ann : Bytes → M Bool) (role : Bool) (title : Bytes) : M Bool :=
-  if Gen.Post.ALLOW_FREE_TN_ANNOUNCE then pure true
+def isTnAllowedWith (c : Cfg) (ann : Bytes → M Bool) (role : Bool) (title : Bytes) : M Bool :=
+  if c.allowFreeTn then pure true
   else if role then pure true
   else do
     let a ← ann title
     pure (!a)
 
 /-- `tnSafeStrip`: `title[len(TN_ANNOUNCE_BIG5):]` unless the tag is allowed. -/
-def tnSafeStripWith (ann : Bytes → M Bool) (role : Bool) (title : Bytes) : M Bytes := do
-  let ok ← isTnAllowedWith ann role title
+def tnSafeStripWith (c : Cfg) (ann : Bytes → M Bool) (role : Bool) (title : Bytes) : M Bytes := do
+  let ok ← isTnAllowedWith c ann role title
   if ok then pure title else slice title TN.length title.length
 
-def tnSafeStrip : Bool → Bytes → M Bytes := tnSafeStripWith isTnAnnounce
-def tnSafeStripOld : Bool → Bytes → M Bytes := tnSafeStripWith isTnAnnounceOld
+def tnSafeStrip (c : Cfg) : Bool → Bytes → M Bytes := tnSafeStripWith c isTnAnnounce
+def tnSafeStripOld (c : Cfg) : Bool → Bytes → M Bytes := tnSafeStripWith c isTnAnnounceOld
 
 /-- the title the article is published under. -/
-def postTitle (role : Bool) (cls title : Bytes) : M Bytes := tnSafeStrip role (fullTitle cls title)
+def postTitle (c : Cfg) (role : Bool) (cls title : Bytes) : M Bytes := tnSafeStrip c role (fullTitle cls title)
 
 /-! ### cmsys.Trim -/
 
@@ -174,21 +197,21 @@ def writeLines : List Bytes → Nat → M (Bytes × Nat)
       let r ← writeLines rest (addEntropy e p)
       pure (p ++ [10] ++ r.1, r.2)
 
-def initEntropy : Nat := if Gen.Post.USE_POST_ENTROPY then 0 else ENTROPY_MAX
+def initEntropy (c : Cfg) : Nat := if c.usePostEntropy then 0 else ENTROPY_MAX
 
 /-- `writeHeaderAuthor`. -/
-def headerAuthor (anon : Bool) (userID nick : Bytes) : Bytes × Bytes :=
-  if !Gen.Post.HAVE_ANONYMOUS || !anon then (cstr userID, cstr nick)
+def headerAuthor (c : Cfg) (anon : Bool) (userID nick : Bytes) : Bytes × Bytes :=
+  if !c.haveAnonymous || !anon then (cstr userID, cstr nick)
   else (cstr Gen.Post.ANONYMOUS_ID, Gen.Post.ANONYMOUS_NICKNAME)
 
 /-- `writeHeader` for a board post: author line, title line, time line, empty line. -/
-def header (anon : Bool) (userID nick board title ctime : Bytes) : Bytes :=
-  let a := headerAuthor anon userID nick
+def header (c : Cfg) (anon : Bool) (userID nick board title ctime : Bytes) : Bytes :=
+  let a := headerAuthor c anon userID nick
   Gen.Post.STR_AUTHOR1_BIG5 ++ [32] ++ a.1 ++ [32, 40] ++ a.2 ++ [41, 32] ++ Gen.Post.STR_POST1_BIG5 ++ [32] ++ board ++ [10]
     ++ Gen.Post.STR_TITLE_BIG5 ++ [32] ++ title ++ [10] ++ Gen.Post.STR_TIME_BIG5 ++ [32] ++ ctime ++ [10, 10]
 
 /-- `checkBoardAnonymous`. -/
-def useAnony (anon : Bool) : Bool := Gen.Post.HAVE_ANONYMOUS && anon
+def useAnony (c : Cfg) (anon : Bool) : Bool := c.haveAnonymous && anon
 
 /-- `addSimpleSignature`. -/
 def signature (anony : Bool) (ip frm : Bytes) : Bytes :=
@@ -197,10 +220,10 @@ def signature (anony : Bool) (ip frm : Bytes) : Bytes :=
     ++ Gen.Post.STR_FROM_BIG5 ++ [32] ++ host ++ [10]
 
 /-- the line `DoPostArticle` appends when QUERY_ARTICLE_URL is set (`GetWebURL`). -/
-def urlLine (board name : Bytes) : Bytes :=
-  if !Gen.Post.QUERY_ARTICLE_URL then []
+def urlLine (c : Cfg) (board name : Bytes) : Bytes :=
+  if !c.queryURL then []
   else
-    let fn := if Gen.Post.USE_AID_URL then cstr (C13.aiduToAidc (C13.fnToAidu (copyInto C13.FNLEN name)))
+    let fn := if c.useAidURL then cstr (C13.aiduToAidc (C13.fnToAidu (copyInto C13.FNLEN name)))
               else cstr name ++ [46, 104, 116, 109, 108]
     Gen.Post.STR_URL_DISPLAYNAME_BIG5 ++ [32] ++ Gen.Post.URL_PREFIX ++ [47] ++ board ++ [47] ++ fn ++ [10]
 
@@ -240,6 +263,7 @@ structure Req where
   cls : Bytes
   title : Bytes
   lines : List Bytes
+  cfg : Cfg := {}        -- the site configuration in force
   deriving Repr
 
 /-- what the environment chose for one post. -/
@@ -288,14 +312,14 @@ structure Posted where
 
 /-- the article file: header, processed lines, signature, URL line; and the entropy. -/
 def articleFile (q : Req) (e : Env) (title : Bytes) : M (Bytes × Nat) := do
-  let r ← writeLines q.lines initEntropy
-  pure (header q.anon q.userID q.nick q.board title e.ctime ++ r.1 ++ signature (useAnony q.anon) q.ip q.frm
-          ++ urlLine q.board e.name, r.2)
+  let r ← writeLines q.lines (initEntropy q.cfg)
+  pure (header q.cfg q.anon q.userID q.nick q.board title e.ctime ++ r.1 ++ signature (useAnony q.cfg q.anon) q.ip q.frm
+          ++ urlLine q.cfg q.board e.name, r.2)
 
 /-- the money field (`MAX_POST_MONEY` cap, then the zeroing conditions). -/
 def postMoney (q : Req) (entropy : Nat) : Nat :=
   let m := if Gen.Post.MAX_POST_MONEY > 0 ∧ entropy ≥ Gen.Post.MAX_POST_MONEY then Gen.Post.MAX_POST_MONEY else entropy
-  if !q.credit || useAnony q.anon then 0 else m
+  if !q.credit || useAnony q.cfg q.anon then 0 else m
 
 /-- `FileHeaderRaw.SetMoney` / `SetAnonUID` (after e2eca4c): `PutUint32` into the `Multi` field. -/
 def storedMulti (v : Nat) : Nat := v
@@ -305,14 +329,14 @@ def storedMulti (v : Nat) : Nat := v
 def storedMultiOld (_v : Nat) : Nat := 0
 
 def postRecord (q : Req) (e : Env) (title : Bytes) (money : Nat) : Bytes :=
-  if useAnony q.anon then
+  if useAnony q.cfg q.anon then
     recordImage e.name 0 Gen.Post.ANONYMOUS_ID e.date title (storedMulti q.uid) Gen.Post.FILE_ANONYMOUS
   else
     recordImage e.name e.mtime q.userID e.date title (storedMulti money) 0
 
 /-- the record `doCrosspost` appends to ALLPOST: the header with the new title, FILE_LOCAL, Modified = now. -/
 def crossRecord (q : Req) (e : Env) (money : Nat) : Bytes :=
-  if useAnony q.anon then
+  if useAnony q.cfg q.anon then
     recordImage e.name e.xmtime Gen.Post.ANONYMOUS_ID e.date e.xtitle (storedMulti q.uid) 1
   else
     recordImage e.name e.xmtime q.userID e.date e.xtitle (storedMulti money) 1
@@ -361,12 +385,12 @@ def post (s : St) (q : Req) (e : Env) : M (St × Outcome) :=
   match findBoard s.boards q.dirBoard with
   | none => pure (s, .noBoard)
   | some b => do
-    let title ← postTitle q.role q.cls q.title
+    let title ← postTitle q.cfg q.role q.cls q.title
     let fe ← articleFile q e title
     let money := postMoney q fe.2
     let record := postRecord q e title money
     -- writeHeaderAuthorBoard appended the .post record while the file was written
-    let a := headerAuthor q.anon q.userID q.nick
+    let a := headerAuthor q.cfg q.anon q.userID q.nick
     let logRec := postLogImage a.1 q.board title e.logDate
     let log' := (C05.appendRecord s.postLog logSz logRec).1
     let pb := b.publish e.name fe.1 record
@@ -375,7 +399,7 @@ def post (s : St) (q : Req) (e : Env) : M (St × Outcome) :=
     let boards1 := updBoard boards0 q.board BoardSt.setTotal          -- cache.SetBTotal(bid)
     let xrecord := crossRecord q e money
     let boards2 := if q.isOpen then updBoard boards1 ALLPOST fun x => x.crossPublish e.name fe.1 xrecord else boards1
-    let users' := if useAnony q.anon then s.users else bumpUser s.users q.userID q.callerNp
+    let users' := if useAnony q.cfg q.anon then s.users else bumpUser s.users q.userID q.callerNp
     pure ({ boards := boards2, users := users', postLog := log' },
           .posted { idx := idx, title := title, record := record, content := fe.1, money := money,
                     logRec := logRec, xrecord := xrecord })
@@ -384,8 +408,8 @@ def post (s : St) (q : Req) (e : Env) : M (St × Outcome) :=
 of the line writes are ignored): `writeHeaderAuthorBoard` has already appended the .post record, and
 `DoPostArticle` returns the error before `AppendRecord` — index, totals and counters stay as they were. -/
 def postWriteFails (s : St) (q : Req) (e : Env) : M St := do
-  let title ← postTitle q.role q.cls q.title
-  let a := headerAuthor q.anon q.userID q.nick
+  let title ← postTitle q.cfg q.role q.cls q.title
+  let a := headerAuthor q.cfg q.anon q.userID q.nick
   pure { s with postLog := (C05.appendRecord s.postLog logSz (postLogImage a.1 q.board title e.logDate)).1 }
 
 /-- `bbs.CreateArticle`: `BBoardID.ToRaw` (after 469db79) refuses a board id whose name half is not the name of
@@ -438,7 +462,7 @@ def stepS (s : SSt) : SOp → M (SSt × Option Outcome)
       let r ← post s.st q' e
       let ss := match r.2, findSession s.sessions sess with
         | .posted _, some x =>
-          setSession s.sessions { x with numPosts := callerAfter s.st.users q'.userID (useAnony q'.anon) q'.callerNp }
+          setSession s.sessions { x with numPosts := callerAfter s.st.users q'.userID (useAnony q'.cfg q'.anon) q'.callerNp }
         | _, _ => s.sessions
       pure ({ st := r.1, sessions := ss }, some r.2)
   | .create q e => do
